@@ -18,8 +18,10 @@ def stress_cases(ctx, res, n):
         pool = pool_val if res == "val" else pool_coll
         progs = [dict(rnd.choice(pool)) for _ in range(nw)]
         init = [rnd.choice([0, 1])] if res == "val" else [rnd.choice([-1, 1]), rnd.choice([-1, 2])]
-        kinds = [{"uo": rnd.random() < 0.3, "lossy": rnd.random() < 0.3, "masked": rnd.random() < 0.3}
+        kinds = [{"uo": rnd.random() < 0.3, "lossy": rnd.random() < 0.3, "masked": rnd.random() < 0.3, "inc": False}
                  for _ in range(rnd.choice([1, 2, 2]))]
+        if res == "coll" and rnd.random() < 0.3:     # an include-filtered subscriber beside the others
+            kinds[0] = dict(kinds[0], inc=True, lossy=False)
         equiv = "none"
         if rnd.random() < 0.25:        # an equivalence configured: writes of equal values, remove and add again
             equiv = res
@@ -34,7 +36,7 @@ def stress_cases(ctx, res, n):
 def run(ctx):
     thorough = ctx.tier == "thorough"
     mcs = ["ConcMC_sub_val.cfg", "ConcMC_sub_coll.cfg", "ConcMC_lossy_val.cfg", "ConcMC_lossy_coll.cfg",
-           "ConcMC_gc_coll.cfg", "ConcMC_equiv_coll.cfg", "ConcMC_equiv_val.cfg"] + \
+           "ConcMC_gc_coll.cfg", "ConcMC_equiv_coll.cfg", "ConcMC_equiv_val.cfg", "ConcMC_sub_coll_inc.cfg"] + \
         (["ConcMC_sub2_coll.cfg", "ConcMC_sub_val3.cfg"] if thorough else [])
     G = conc_common.gen
     if thorough:
@@ -44,6 +46,8 @@ def run(ctx):
                 lambda: G(ctx, "ConcGen_sub_val3.cfg", "val", simulate="num=20000", timeout=1800),
                 lambda: G(ctx, "ConcGen_sub2_val_mask.cfg", "val", simulate="num=20000", timeout=1800),
                 lambda: G(ctx, "ConcGen_sub2_coll_mask.cfg", "coll", simulate="num=20000", timeout=1800),
+                lambda: G(ctx, "ConcGen_sub_coll_inc.cfg", "coll", timeout=1800, limit=20000),
+                lambda: G(ctx, "ConcGen_sub2_coll_inc.cfg", "coll", simulate="num=20000", timeout=1800),
                 lambda: G(ctx, "ConcGen_gc_coll.cfg", "coll", simulate="num=20000", timeout=1800),
                 lambda: G(ctx, "ConcGen_lossy_val.cfg", "val", timeout=1800, limit=20000),
                 lambda: G(ctx, "ConcGen_lossy_coll.cfg", "coll", timeout=1800, limit=20000),
@@ -60,6 +64,8 @@ def run(ctx):
                 lambda: G(ctx, "ConcGen_sub_val3.cfg", "val", simulate="num=800"),
                 lambda: G(ctx, "ConcGen_sub2_val_mask.cfg", "val", simulate="num=500"),
                 lambda: G(ctx, "ConcGen_sub2_coll_mask.cfg", "coll", simulate="num=500"),
+                lambda: G(ctx, "ConcGen_sub_coll_inc.cfg", "coll", simulate="num=500"),
+                lambda: G(ctx, "ConcGen_sub2_coll_inc.cfg", "coll", simulate="num=700"),
                 # resources with an equivalence configured (changes equal to what the subscriber holds are suppressed)
                 lambda: G(ctx, "ConcGen_equiv_coll.cfg", "coll", simulate="num=700", equiv="coll"),
                 lambda: G(ctx, "ConcGen_equiv_val.cfg", "val", simulate="num=400", equiv="val")]
